@@ -150,6 +150,8 @@ pub struct RunOpts {
     pub raw_roundtrip: bool,
     /// run follow-up probes after the last op (C13 reclaim probe, C03 replay oracle)
     pub probes: bool,
+    /// the arena was constructed with `with_capacity(layout)`: allocating that layout first must not need another chunk (C12)
+    pub ctor_capacity: Option<(usize, usize)>,
 }
 
 pub struct UnwindMarker;
@@ -756,6 +758,13 @@ impl<'a> Exec<'a> {
                 let b = self.new_block(ptr, layout.size(), layout.align(), 0);
                 unsafe { fill(&b) };
                 self.check_returned_len(arena, &b, p.len());
+                if self.pc == 1 && self.opts.ctor_capacity == Some((layout.size(), layout.align())) && self.on(grp::CHUNKFIT) {
+                    arena.d_stats(&mut self.st2);
+                    if self.st2.count != count_before || self.count_calls() != calls {
+                        viol!(self, grp::CHUNKFIT, "with_capacity({layout:?}) created a chunk that does not fit that layout: allocating it changed the chunk count from {} to {}", count_before, self.st2.count);
+                        return;
+                    }
+                }
                 if self.count_calls() != calls {
                     self.cover.chunk_switch = true;
                     self.check_chunk_fit(arena, count_before, &b);
@@ -1378,9 +1387,12 @@ impl<'a> Exec<'a> {
                 if adv != 0 {
                     advanced_chunks += 1;
                     if adv > bound {
-                        // D9 (known finding): upwards, `alloc_try_with_mut` leaves the part of the `Result<T, E>` slot
-                        // that precedes the value (the discriminant) allocated
-                        if spec.kind == MutKind::TryWithMut && cfg.up && rep.slot_size > rep.elem_size && adv <= bound + (rep.slot_size - rep.elem_size) {
+                        // D9 (known finding): `alloc_try_with_mut` leaves the part of the `Result<T, E>` slot that lies in front of the
+                        // value in bump direction allocated (upwards: discriminant / padding before it; downwards: what follows it)
+                        // (tagged only if the new position is exactly the MIN_ALIGN-rounded far edge of the value: then all of the
+                        // excess comes from where the value sits inside the slot)
+                        let value_edge = if cfg.up { (blk.ptr.as_ptr() as usize + blk.len + cfg.min_align - 1) & !(cfg.min_align - 1) } else { (blk.ptr.as_ptr() as usize) & !(cfg.min_align - 1) };
+                        if spec.kind == MutKind::TryWithMut && rep.slot_size > rep.elem_size && c.3 == value_edge {
                             // reported last, so that every other oracle still judges this history
                             d9 = Some(format!("alloc_try_with_mut slot waste: {:?}: returning Ok advanced the position of chunk {k} by {adv} bytes for {bytes} bytes of contents (padding bound {}, Result slot {} bytes)", spec, bound - bytes, rep.slot_size));
                         } else {
